@@ -12,6 +12,7 @@
 -/
 import Ipv8.C20.Lemmas
 import Ipv8.C20.Nested
+import Ipv8.C20.TreeDecode
 
 namespace Ipv8.C20
 
@@ -40,6 +41,17 @@ example :
       = some [("z", 9), ("b7", 1), ("b6", 0), ("b5", 0), ("b4", 0), ("b3", 0), ("b2", 0), ("b1", 1), ("b0", 0), ("a", 1)] := by
   decide
 
+/-- old-style superclass (`class NewC(VariablePayload, OldA)`, `OldA.__init__(self, a, b)`): the definition is well
+    formed, the mixed call binds alike, and the call that passes `a` both positionally and by keyword is rejected by
+    both forms (the interpreted form used to accept it and drop the positional value; repaired in /repo) -/
+example :
+    let d : PDef Nat := { fmts := [.str "I", .str "H", .str "B"], names := ["a", "b", "c"], superArgs := ["a", "b"] }
+    (interpInit d [7] [("c", 3), ("b", 8)]).toOption = some [("c", 3), ("b", 8), ("a", 7)]
+    ∧ (compiledInit some d [7] [("c", 3), ("b", 8)]).toOption = some [("c", 3), ("b", 8), ("a", 7)]
+    ∧ (interpInit d [7, 8] [("a", 1), ("c", 3)]).toOption = none
+    ∧ (compiledInit some d [7, 8] [("a", 1), ("c", 3)]).toOption = none := by
+  decide
+
 /-- the hypothesis on defaults is needed: with a default whose spliced text denotes another value (what
     `str(default)` did for the string "3") the compiled constructor differs from the interpreted one -/
 theorem splice_hypothesis_needed :
@@ -55,16 +67,8 @@ theorem splice_hypothesis_needed :
     same exception if an attribute is missing. -/
 theorem compiled_pack_eq (splice : V → Option V) (d : PDef V) (attrs : Attrs V)
     (hwf : d.WF) (hd : d.DefaultsOK splice) :
-    compiledPack splice d attrs = interpPack d attrs := by
-  obtain ⟨gp, hgp, hc⟩ := vpCompile_ok splice d hwf hd
-  simp only [compiledPack, hc, runPack, interpPack]
-  unfold compilePack at hgp
-  cases hes : compilePackFmts d.names (hasKey d.fixPack) d.fmts 0 with
-  | error e => simp [hes] at hgp
-  | ok es =>
-    simp only [hes, Except.ok.injEq] at hgp
-    subst hgp
-    exact runPackEntries_eq d attrs d.fmts 0 es hes
+    compiledPack splice d attrs = interpPack d attrs :=
+  compiled_pack_eq_lemma splice d attrs hwf hd
 
 example :
     let d : PDef Nat := { fmts := [.str "bits", .cls "Inner", .lst "Inner"],
@@ -125,6 +129,48 @@ example :
   refine ⟨?_, by decide⟩
   exact All₂.cons ⟨rfl, rfl⟩ (All₂.cons ⟨rfl, rfl⟩ All₂.nil)
 
+/-! ## trees of nested payloads in mixed forms: the induction over the nesting depth, mechanised (Tree.lean) -/
+
+/-- BYTES.  `Obj V` = primitive value | payload instance (form of its class, class id, attributes) | list;
+    `bytesOf w n` = `pack_serializable` to nesting depth n where every instance uses the `to_pack_list` of ITS OWN form;
+    `Rn n a b` = "a and b are the same object up to the forms of the instances in them (to depth n)".
+    For every class table of well-formed definitions, all primitive packers, every depth: form-related trees produce
+    the same bytes or both fail.  Hooks are arbitrary functions on `Obj V` that respect the relation (any hook that
+    only looks at primitive values does). -/
+theorem nested_bytes_form_independent (w : World V)
+    (hwf : ∀ c, (w.defs c).WF ∧ (w.defs c).DefaultsOK w.splice)
+    (hhook : ∀ c name f, alookup (w.defs c).fixPack name = some f → ∀ n a b, Rn n a b → Rn n (f a) (f b)) :
+    ∀ n a b, Rn n a b → bytesOf w n a = bytesOf w n b :=
+  bytes_form_independent w hwf hhook
+
+/-- DECODING.  `decodeObj w φ n` = `unpack_serializable` to nesting depth n where class k is in form `φ k`; nested
+    class entries and `[cls]` entries recurse; the byte-level primitives (`unpackPrim`, `nestedSlice`, `listCount`)
+    are arbitrary functions.  For ANY two form assignments the results are both failures, or the same offset and
+    objects equal up to forms — the same field values at every level.  Hypotheses on the Serializer: a primitive
+    unpacker appends one value per slot and never None. -/
+theorem nested_decode_form_independent (w : DWorld V) (φ ψ : Nat → Bool)
+    (hwf : ∀ c, (w.defs c).WF ∧ (w.defs c).DefaultsOK w.splice)
+    (hhook : ∀ c name f, alookup (w.defs c).fixUnpack name = some f → ∀ m a b, Rn m a b → Rn m (f a) (f b))
+    (hslots : ∀ name data off vals o, w.unpackPrim name data off = some (vals, o) →
+      vals.length = (Fmt.str name).slots ∧ ∀ v ∈ vals, w.isNone (.val v) = false)
+    (hlist : ∀ l, w.isNone (.list l) = false)
+    (hinst : ∀ c k fs, w.isNone (.inst c k fs) = false) :
+    ∀ n k data off, ORel (2 * n) (decodeObj w φ n k data off) (decodeObj w ψ n k data off) :=
+  decode_form_independent w φ ψ hwf hhook hslots hlist hinst
+
+/-- non-vacuity: an outer class with a nested payload and a payload list; all forms flipped; same bytes -/
+example :
+    let w : World Nat :=
+      { defs := fun k => if k = 0 then { fmts := [.str "B"], names := ["x"] }
+                         else { fmts := [.str "B", .cls "Inner", .lst "Inner"], names := ["a", "p", "ps"] },
+        splice := some, prim := fun _ ls => some (ls.map UInt8.ofNat) }
+    let a : Obj Nat := .inst true 1 [("ps", .list [.inst false 0 [("x", .val 3)]]), ("p", .inst true 0 [("x", .val 2)]),
+                                     ("a", .val 1)]
+    let b : Obj Nat := .inst false 1 [("ps", .list [.inst true 0 [("x", .val 3)]]), ("p", .inst false 0 [("x", .val 2)]),
+                                      ("a", .val 1)]
+    bytesOf w 2 a = some [1, 0, 1, 2, 1, 0, 1, 3] ∧ bytesOf w 2 b = some [1, 0, 1, 2, 1, 0, 1, 3] := by
+  decide
+
 /-! ## from_unpack_list and decoding -/
 
 /-- ∀ well-formed definitions, ∀ raw value lists of the right arity without None: the generated `from_unpack_list`
@@ -133,18 +179,8 @@ example :
 theorem compiled_unpack_eq (splice : V → Option V) (isNone : V → Bool) (d : PDef V) (args : List V)
     (hwf : d.WF) (hd : d.DefaultsOK splice)
     (hlen : args.length = d.names.length) (hnone : ∀ a ∈ args, isNone a = false) :
-    (compiledUnpack splice isNone d args).toOption = (interpUnpack d args).toOption := by
-  obtain ⟨gp, _, hc⟩ := vpCompile_ok splice d hwf hd
-  have hbind : bindParams (fun _ => (none : Option V)) [] d.names args = .ok args :=
-    bindParams_all_positional _ d.names args hlen
-  have hargs := runUArgs_eq isNone d [] d.names args hlen.symm (fun _ _ => by simp [keys]) hwf.nodup hnone
-  simp only [List.nil_append] at hargs
-  simp only [compiledUnpack, hc, runUnpack, compileUnpack, pyBind, hbind, List.filter_nil, List.isEmpty_nil,
-    Bool.not_true, Bool.and_false, Bool.false_eq_true, if_false, hargs]
-  rw [runInit_generated d _ [] hwf.nodup]
-  have hcore := init_core d (List.zipWith (unpackHook d) d.names args) [] hwf (by simp [keys])
-  rw [hcore]
-  simp only [interpUnpack, unpackFix_eq d args 0 (by omega), List.drop_zero]
+    (compiledUnpack splice isNone d args).toOption = (interpUnpack d args).toOption :=
+  compiled_unpack_eq_lemma splice isNone d args hwf hd hlen hnone
 
 example :
     let d : PDef Nat := { fmts := [.str "I", .str "H"], names := ["a", "b"], fixUnpack := [("b", fun x => x - 1)] }
@@ -196,7 +232,12 @@ theorem dataclass_def (dd : DDef V) (d : PDef V) (h : dd.toPDef = .ok d) :
 theorem dataclass_wf (dd : DDef V) (d : PDef V) (h : dd.toPDef = .ok d)
     (hnd : (dd.fields.map (·.1)).Nodup) (hbits : ∀ f ∈ dd.fields, f.2.1 ≠ .tvar "bits") : d.WF := by
   obtain ⟨h1, h2, _⟩ := dataclass_def dd d h
-  refine ⟨h1 ▸ hnd, ?_⟩
+  have hs : d.superArgs = [] := by
+    unfold DDef.toPDef at h
+    cases hm : mapTypes (dd.fields.map (·.2.1)) with
+    | error e => simp [hm] at h
+    | ok fmts => simp only [hm, Except.ok.injEq] at h; subst h; rfl
+  refine PDef.WF.of_no_super d (h1 ▸ hnd) ?_ hs
   rw [h1, mapTypes_slots _ _ h2 (by
     intro t ht
     simp only [List.mem_map] at ht
